@@ -24,6 +24,10 @@ def special_docs():
         J + 'GET /q\n  Query "a=1"\n    {"a": 1, "b": @t}\n  200 any\nTYPE @t\n{"k": 1}\n',
         J + 'URL /rpc\n  Protocol json-rpc-2.0\n  Method m\n    Params\n      {"p": 1}\nGET /rpc\n  200 any\n',
         J + 'GET /\n  200 any\nGET /a/\n  200 any\nGET /a\n  200 any\n',
+        # the methods of one path declared apart from each other
+        J + 'GET /a\n  200 any\nGET /b\n  200 any\nPOST /a\n  Request any\n  201 any\nDELETE /b\n  204 any\nPUT /a\n  Request any\n  200 any\n',
+        J + 'URL /a/{id}\n  GET\n    200 any\n  PUT\n    Request any\n    200 any\nGET /other\n  200 any\nDELETE /a/{id}\n  204 any\nURL /other\n  POST\n    Request any\n    201 any\n',
+        J + 'GET /x/{p}\n  200 any\nURL /rpc\n  Protocol json-rpc-2.0\n  Method m\n    Params\n      {}\nPATCH /x/{p}\n  Request any\n  200 any\n',
     ]
 
 
